@@ -63,8 +63,8 @@ Lemma primary_loop_facts ttl evs : forall s, PInv ttl s ->
   let '(x, closed, stop) := primary_loop ttl s evs in
   (closed = true <-> (x <> XHandedOff /\ x <> XStillPrimary)) /\
   (x = XHandedOff -> In (PHandoff true true) evs) /\
-  (x = XExpired -> stop <= ttl + retry_ms) /\
-  (x = XExpired -> ~ In PRenewExpired evs -> ~ In PHandoffLeaseGone evs -> ttl < stop).
+  (x = XExpired -> stop <= ttl) /\
+  (x = XExpired -> ~ In PRenewExpired evs -> ~ In PHandoffLeaseGone evs -> stop = ttl).
 Proof.
   induction evs as [|e r IH]; intros s HI; cbn [primary_loop].
   - fin HI.
@@ -89,13 +89,13 @@ Proof.
 Qed.
 
 (* the lease is destroyed on every exit except a completed handoff; a handoff completes only for a connected
-   target; a node whose renewals fail leaves between TTL and TTL + 1 s after its last successful renewal *)
+   target; a node whose renewals fail leaves exactly one TTL after its last successful renewal, never later *)
 Theorem primary_run_facts ttl evs :
   let '(x, closed, stop) := primary_run ttl evs in
   (closed = true <-> (x <> XHandedOff /\ x <> XStillPrimary)) /\
   (x = XHandedOff -> In (PHandoff true true) evs) /\
-  (x = XExpired -> stop <= ttl + retry_ms) /\
-  (x = XExpired -> ~ In PRenewExpired evs -> ~ In PHandoffLeaseGone evs -> ttl < stop).
+  (x = XExpired -> stop <= ttl) /\
+  (x = XExpired -> ~ In PRenewExpired evs -> ~ In PHandoffLeaseGone evs -> stop = ttl).
 Proof. unfold primary_run. apply primary_loop_facts. left. cbn. tauto. Qed.
 (* a handoff whose last renewal reports the lease gone ends the primary role at once, and the lease is destroyed *)
 Lemma handoff_lease_gone_ends_role ttl s r : primary_loop ttl s (PHandoffLeaseGone :: r) = (XExpired, true, p_since s).
